@@ -4,6 +4,7 @@ package main
 // one PRNG seeded by VERIF_SEED (DESIGN.md section 4b).
 
 import (
+	"regexp"
 	"unicode/utf8"
 	"bufio"
 	"fmt"
@@ -22,6 +23,7 @@ type gen struct {
 	out     *bufio.Writer
 	n       int
 	tier    string
+	noSib   bool // no sibling cases (groups whose cases are slow or exhaustive)
 	pfx     string
 	longP   float64 // probability that text() returns a long text
 	longMax int     // its size in clusters, at most
@@ -31,6 +33,73 @@ type gen struct {
 func (g *gen) emit(kind string, args ...string) {
 	g.n++
 	fmt.Fprintf(g.out, "%s%d|%s|%s\n", g.pfx, g.n, kind, strings.Join(args, "|"))
+	if kind == "prog" && len(args) == 1 && !g.noSib && g.chance(0.07) {
+		if sib, ok := g.sibling(args[0]); ok {
+			g.n++
+			fmt.Fprintf(g.out, "%s%d|%s|%s\n", g.pfx, g.n, kind, sib)
+		}
+	}
+}
+
+var sibSeps = []string{"a", "d.a", "7c", "3c.62.72.3e", "3c.62.72.2f.3e", "2d.2d", "-"}
+var reInt = regexp.MustCompile(`^-?[0-9]{1,6}$`)
+
+// sibling: the same program with ONE argument of its last operation changed (a width, gap or position
+// by a little, the line separator, one option flag), emitted directly after the original. A result
+// cached under a key that leaves that argument out (seeded changes C15g, C14g: memo of wrapped text
+// keyed by text and width but not by the separator / shared lines mutated by a later call with
+// another gap) is then stale for the sibling and differs from the model. The second, reverse-order
+// pass of the runner sees the pair in the other order as well.
+func (g *gen) sibling(prog string) (string, bool) {
+	steps := strings.Split(prog, ";")
+	// last step that is a real operation (not an observer)
+	k := len(steps) - 1
+	for k > 0 {
+		op := strings.SplitN(steps[k], ",", 2)[0]
+		if op == "string" || op == "commit" || op == "commitall" || op == "charcount" || op == "linecount" {
+			k--
+			continue
+		}
+		break
+	}
+	if k <= 0 {
+		return "", false
+	}
+	f := strings.Split(steps[k], ",")
+	var cand []int
+	for i := 2; i < len(f); i++ {
+		if reInt.MatchString(f[i]) || strings.Count(f[i], ":") == 4 {
+			cand = append(cand, i)
+		}
+	}
+	if len(cand) == 0 {
+		return "", false
+	}
+	i := cand[g.r.Intn(len(cand))]
+	if reInt.MatchString(f[i]) {
+		v, _ := strconv.Atoi(f[i])
+		d := []int{-2, -1, 1, 2, 3}[g.r.Intn(5)]
+		f[i] = strconv.Itoa(v + d)
+	} else {
+		o := strings.Split(f[i], ":")
+		if g.chance(0.6) {
+			ns := g.pick(sibSeps)
+			if ns == o[1] {
+				ns = "a"
+			}
+			if ns == o[1] {
+				ns = "7c"
+			}
+			o[1] = ns
+		} else {
+			fl, _ := strconv.Atoi(o[4])
+			fl ^= 1 << uint(g.r.Intn(5))
+			o[4] = strconv.Itoa(fl)
+		}
+		f[i] = strings.Join(o, ":")
+	}
+	steps[k] = strings.Join(f, ",")
+	return strings.Join(steps, ";"), true
 }
 
 func (g *gen) pick(ss []string) string { return ss[g.r.Intn(len(ss))] }
